@@ -115,7 +115,14 @@ pub fn run(args: &Args, seed: u64) -> i32 {
         }
         let real = run_real(w);
         let _ = std::env::set_current_dir("/");
-        let sim = run_world(w);
+        // the seam-call budget is derived from the pristine world and static damage can add
+        // include sites (`check_world` retries with a larger budget; here the budget is simply
+        // lifted: these worlds have no faults and every run on real files terminates)
+        let sim = {
+            let mut w2 = w.clone();
+            w2.budget = crate::BUDGET_CAP;
+            run_world(&w2)
+        };
         if w.nodes.values().any(|n| matches!(n, Node::Link(_))) {
             with_links += 1;
         }
